@@ -199,3 +199,19 @@ def s_mask_column_assign(a, b, v):
     m = np.arange(15).reshape(3, 5) + a[0]
     m[:, a > 1] = 0
     return m.reshape(-1)
+
+
+def s_partial_getattr(a, b, v):
+    from functools import partial
+
+    def f(x, y, z=0):
+        return x * 100 + y * 10 + z
+    g = partial(f, a[0], z=v)
+    return np.array([g(a[1]), getattr(a, "size"), getattr(b, "ndim")])
+
+
+def s_cumsum_slice_tril(a, b, v):
+    c = np.cumsum(np.abs(a))
+    sl = slice(1, 4)
+    r, q = np.tril_indices(3)
+    return np.hstack([c, a[sl], b[slice(None, None, 2)], r * 10 + q, np.atleast_2d(a).shape[0], np.atleast_2d(a)[0, 1]])
